@@ -2168,3 +2168,629 @@ class FieldDomain:
                         st[x.target.id] = self.eval(fi, module, x.value, st)
             out |= self.eval(fi, module, value, st)
         return out
+
+
+# -- key objects: __eq__ / __hash__ of the remotes that key the tables ------------------------------------------------
+#
+# `remote in self._backlogs`, `self._backlogs[remote]`, `(remote, mid) in self._active_exchanges` find an entry only
+# when the remote of the lookup hashes like the remote of the insertion whenever the two compare equal.  KeyObjects
+# decides that by *running* the class's own constructor, __eq__ and __hash__ (and whatever properties / methods of the
+# class they go through) in a small concrete interpreter over a finite domain of constructor arguments, so the
+# spelling (a cached hash filled in by the constructor or lazily by __hash__, a helper method, a property, a tuple of
+# components instead of a slice, isinstance guards returning NotImplemented, ...) is immaterial.
+
+class KUnsupported(Exception):
+    """the interpreter met a construct outside its vocabulary (-> refusal, never a verdict)"""
+
+
+class _KRaised(Exception):
+    """the interpreted code raised"""
+
+
+class KOpaque:
+    """a value the interpreter does not look into: equal only to itself, hashed by identity, truthiness unknown"""
+
+    def __init__(self, what, plain=False):
+        self.what = what
+        self.plain = plain  # known to be a plain object: not iterable, not subscriptable, no length, always true
+
+    def __repr__(self):
+        return "<%s>" % self.what
+
+
+class KInst:
+    def __init__(self, ci, label):
+        self.ci = ci
+        self.fields = {}
+        self.label = label
+
+    def __repr__(self):
+        return self.label
+
+
+class _KHashed:
+    """stands for an interpreted instance inside a native container that is hashed natively"""
+
+    def __init__(self, h, ident):
+        self.h, self.ident = h, ident
+
+    def __hash__(self):
+        return self.h
+
+    def __eq__(self, o):
+        return isinstance(o, _KHashed) and o.ident is self.ident
+
+
+class _KFunc:
+    def __init__(self, node, module, ci=None, bound=None, closure=None):
+        self.node, self.module, self.ci, self.bound, self.closure = node, module, ci, bound, closure
+
+
+class _KClass:
+    def __init__(self, ci):
+        self.ci = ci
+
+
+class _KReturn(Exception):
+    def __init__(self, v):
+        self.v = v
+
+
+_K_BUILTINS = {"tuple": tuple, "len": len, "str": str, "int": int, "bool": bool, "list": list, "bytes": bytes, "frozenset": frozenset, "repr": repr, "abs": abs, "min": min, "max": max, "sorted": sorted, "reversed": reversed}
+_K_TYPES = {"tuple": tuple, "str": str, "int": int, "bytes": bytes, "list": list, "bool": bool, "dict": dict, "float": float}
+_K_NATIVE = (str, bytes, int, float, bool, type(None), tuple, list, frozenset)
+
+
+class KeyObjects:
+    MAX_STEPS = 4000
+
+    def __init__(self, prog):
+        self.prog = prog
+        self.memo = {}
+        self.classrefs = {}
+        self.script = None  # choices for opaque truth values (None: an opaque truth value is unsupported)
+        self.pos = 0
+        self.steps = 0
+
+    # -- choices --------------------------------------------------------------------------------------------------
+    def _choose(self, what):
+        if self.script is None:
+            raise KUnsupported("the outcome depends on the truth value of %s" % what)
+        if self.pos == len(self.script):
+            self.script.append(False)
+        v = self.script[self.pos]
+        self.pos += 1
+        return v
+
+    def explore(self, thunk):
+        """all outcomes of thunk() over the truth values of the opaque values it tests"""
+        out = []
+        script = []
+        for _ in range(64):
+            self.script, self.pos = script, 0
+            try:
+                out.append(thunk())
+            except (_KRaised, TypeError, ValueError, IndexError, KeyError, AttributeError):
+                pass
+            finally:
+                used, self.script = self.script[: self.pos], None
+            while used and used[-1]:
+                used.pop()
+            if not used:
+                return out
+            used[-1] = True
+            script = used
+        raise KUnsupported("too many opaque decisions in a constructor")
+
+    # -- values ---------------------------------------------------------------------------------------------------
+    def truth(self, v):
+        if isinstance(v, KOpaque):
+            return True if v.plain else self._choose(repr(v))
+        if isinstance(v, KInst):
+            if self.lookup(v.ci, "__bool__") or self.lookup(v.ci, "__len__"):
+                raise KUnsupported("truth value of an instance with __bool__ / __len__")
+            return True
+        if isinstance(v, (_KFunc, _KClass)):
+            return True
+        return bool(v)
+
+    def lookup(self, ci, name):
+        """(kind, thing, defining class) of a class-level name along the in-package MRO"""
+        for q in self.prog.mro(ci.qn):
+            c = self.prog.classes.get(q)
+            if c is None:
+                continue
+            if name in c.methods:
+                return ("method", c.methods[name], c)
+            if name in c.attrs:
+                return ("attr", c.attrs[name], c)
+        return None
+
+    def opaque_call(self, what, args):
+        try:
+            key = (what, tuple(self.image(a) for a in args))
+            hash(key)
+        except TypeError:
+            raise KUnsupported("call of %s with an unhashable argument" % what)
+        if key not in self.memo:
+            self.memo[key] = KOpaque("%s(...)" % what)
+        return self.memo[key]
+
+    def image(self, v):
+        """a native hashable stand-in: equal images <=> equal values, hash(image) plays hash(value)"""
+        if isinstance(v, KInst):
+            return _KHashed(self.hash_of(v), v)
+        if isinstance(v, tuple):
+            return tuple(self.image(x) for x in v)
+        if isinstance(v, frozenset):
+            return frozenset(self.image(x) for x in v)
+        if isinstance(v, (list, dict, set)):
+            raise TypeError("unhashable")
+        return v
+
+    def hash_of(self, v):
+        if isinstance(v, KInst):
+            m = self.lookup(v.ci, "__hash__")
+            if m is None:
+                return id(v)
+            if m[0] != "method":
+                raise KUnsupported("__hash__ of %s is not a plain method" % v.ci.qn)
+            r = self.call(self.bind(m[1], m[2], v), [], {})
+            if not isinstance(r, int) or isinstance(r, bool):
+                raise KUnsupported("__hash__ of %s does not evaluate to an integer" % v.ci.qn)
+            return r
+        return hash(self.image(v))
+
+    def equal(self, a, b):
+        if isinstance(a, KInst) or isinstance(b, KInst):
+            for x, y in ((a, b), (b, a)):
+                if isinstance(x, KInst):
+                    m = self.lookup(x.ci, "__eq__")
+                    if m is None:
+                        continue
+                    if m[0] != "method":
+                        raise KUnsupported("__eq__ of %s is not a plain method" % x.ci.qn)
+                    r = self.call(self.bind(m[1], m[2], x), [y], {})
+                    if r is not NotImplemented:
+                        return r
+            return a is b
+        if isinstance(a, KOpaque) or isinstance(b, KOpaque):
+            return a is b
+        if isinstance(a, (tuple, list)) and type(a) is type(b):
+            return len(a) == len(b) and all(self.truth(self.equal(x, y)) for x, y in zip(a, b))
+        if isinstance(a, (_KFunc, _KClass)) or isinstance(b, (_KFunc, _KClass)):
+            return a is b
+        return a == b
+
+    def bind(self, fi, ci, inst):
+        node = fi.node
+        decos = [chain(d) or "?" for d in node.decorator_list]
+        if decos == ["staticmethod"]:
+            return _KFunc(node, fi.module, ci)
+        if decos:
+            raise KUnsupported("decorated method %s" % fi.short)
+        if isinstance(node, ast.AsyncFunctionDef):
+            raise KUnsupported("coroutine %s" % fi.short)
+        return _KFunc(node, fi.module, ci, bound=inst)
+
+    # -- calls ----------------------------------------------------------------------------------------------------
+    def call(self, f, args, kwargs):
+        self.steps += 1
+        if self.steps > self.MAX_STEPS * 1000:
+            raise KUnsupported("evaluation does not end")
+        if not isinstance(f, _KFunc):
+            raise KUnsupported("call of %r" % (f,))
+        a = f.node.args
+        if any(isinstance(x, (ast.Yield, ast.YieldFrom, ast.Await)) for x in walk_no_nested(f.node)):
+            raise KUnsupported("generator / coroutine")
+        args = ([f.bound] if f.bound is not None else []) + list(args)
+        pos = [p.arg for p in a.posonlyargs + a.args]
+        env = dict(f.closure or {})
+        if len(args) > len(pos) and a.vararg is None:
+            raise TypeError("too many arguments")
+        for n, v in zip(pos, args):
+            env[n] = v
+        if a.vararg is not None:
+            env[a.vararg.arg] = tuple(args[len(pos):])
+        kwargs = dict(kwargs)
+        names = pos + [p.arg for p in a.kwonlyargs]
+        for k in list(kwargs):
+            if k in names:
+                if k in env and k in pos[: len(args)]:
+                    raise TypeError("multiple values")
+                env[k] = kwargs.pop(k)
+        if kwargs:
+            if a.kwarg is None:
+                raise TypeError("unexpected keyword")
+            env[a.kwarg.arg] = kwargs
+        elif a.kwarg is not None:
+            env[a.kwarg.arg] = {}
+        defaults = dict(zip(pos[len(pos) - len(a.defaults):], a.defaults))
+        defaults.update({p.arg: d for p, d in zip(a.kwonlyargs, a.kw_defaults) if d is not None})
+        for n in names:
+            if n not in env:
+                if n not in defaults:
+                    raise TypeError("missing argument %s" % n)
+                env[n] = self.ev(defaults[n], {}, f)
+        if isinstance(f.node, ast.Lambda):
+            return self.ev(f.node.body, env, f)
+        try:
+            self.block(f.node.body, env, f)
+        except _KReturn as r:
+            return r.v
+        return None
+
+    def block(self, body, env, f):
+        for st in body:
+            self.stmt(st, env, f)
+
+    def stmt(self, st, env, f):
+        self.steps += 1
+        if isinstance(st, ast.Return):
+            raise _KReturn(self.ev(st.value, env, f) if st.value is not None else None)
+        if isinstance(st, ast.Expr):
+            if not isinstance(st.value, ast.Constant):
+                self.ev(st.value, env, f)
+        elif isinstance(st, ast.Pass):
+            pass
+        elif isinstance(st, ast.Assign):
+            v = self.ev(st.value, env, f)
+            for t in st.targets:
+                self.store(t, v, env, f)
+        elif isinstance(st, ast.AnnAssign):
+            if st.value is not None:
+                self.store(st.target, self.ev(st.value, env, f), env, f)
+        elif isinstance(st, ast.If):
+            self.block(st.body if self.truth(self.ev(st.test, env, f)) else st.orelse, env, f)
+        elif isinstance(st, ast.Raise):
+            raise _KRaised()
+        elif isinstance(st, ast.Assert):
+            if not self.truth(self.ev(st.test, env, f)):
+                raise _KRaised()
+        else:
+            raise KUnsupported("statement `%s`" % stmt_text(st))
+
+    def store(self, t, v, env, f):
+        if isinstance(t, ast.Name):
+            env[t.id] = v
+        elif isinstance(t, ast.Attribute):
+            o = self.ev(t.value, env, f)
+            if isinstance(o, KInst):
+                k = self.lookup(o.ci, t.attr)
+                if k is not None and not (k[0] == "attr" and not isinstance(k[1], (ast.Call, ast.Lambda))):
+                    raise KUnsupported("store into %s.%s, which the class defines as a method / descriptor" % (o.ci.qn, t.attr))
+                o.fields[t.attr] = v
+            elif not isinstance(o, KOpaque):
+                raise KUnsupported("store into an attribute of %r" % (o,))
+        elif isinstance(t, (ast.Tuple, ast.List)) and not any(isinstance(e, ast.Starred) for e in t.elts):
+            if isinstance(v, (str, bytes)):
+                v = [v[i : i + 1] for i in range(len(v))] if isinstance(v, str) else list(v)
+            if v is None or isinstance(v, (int, float)) or (isinstance(v, KOpaque) and v.plain):
+                raise TypeError("not iterable")
+            if not isinstance(v, (tuple, list)):
+                raise KUnsupported("unpacking of %r" % (v,))
+            if len(v) != len(t.elts):
+                raise ValueError("unpack")
+            for e, x in zip(t.elts, v):
+                self.store(e, x, env, f)
+        else:
+            raise KUnsupported("store into `%s`" % txt(t))
+
+    # -- expressions ----------------------------------------------------------------------------------------------
+    def ev(self, e, env, f):
+        self.steps += 1
+        if isinstance(e, ast.Constant):
+            return e.value
+        if isinstance(e, ast.Name):
+            if e.id in env:
+                return env[e.id]
+            return self.global_name(e.id, f)
+        if isinstance(e, ast.Attribute):
+            return self.getattr(self.ev(e.value, env, f), e.attr, f)
+        if isinstance(e, ast.Tuple):
+            return tuple(self.elts(e.elts, env, f))
+        if isinstance(e, ast.List):
+            return list(self.elts(e.elts, env, f))
+        if isinstance(e, ast.Subscript):
+            o = self.ev(e.value, env, f)
+            if isinstance(e.slice, ast.Slice):
+                ix = slice(*[self.ev(x, env, f) if x is not None else None for x in (e.slice.lower, e.slice.upper, e.slice.step)])
+                if any(x is not None and not isinstance(x, int) for x in (ix.start, ix.stop, ix.step)):
+                    raise KUnsupported("slice bounds of `%s`" % txt(e))
+                key = ("slice", ix.start, ix.stop, ix.step)
+            else:
+                ix = self.ev(e.slice, env, f)
+                key = ix
+            if isinstance(o, KOpaque):
+                if o.plain:
+                    raise TypeError("not subscriptable")
+                return self.opaque_call("subscript", [o, key])
+            if isinstance(o, (str, bytes, tuple, list)):
+                if not isinstance(ix, (int, slice)):
+                    raise TypeError("index")
+                return o[ix]
+            if isinstance(o, dict):
+                return o[self.image(ix)]
+            if o is None:
+                raise TypeError("None is not subscriptable")
+            raise KUnsupported("subscript of %r" % (o,))
+        if isinstance(e, ast.BoolOp):
+            v = None
+            for x in e.values:
+                v = self.ev(x, env, f)
+                t = self.truth(v)
+                if t != isinstance(e.op, ast.And):
+                    return v
+            return v
+        if isinstance(e, ast.UnaryOp):
+            v = self.ev(e.operand, env, f)
+            if isinstance(e.op, ast.Not):
+                return not self.truth(v)
+            if isinstance(v, (int, float)) and not isinstance(v, bool):
+                return -v if isinstance(e.op, ast.USub) else +v if isinstance(e.op, ast.UAdd) else ~v
+            raise KUnsupported("`%s`" % txt(e))
+        if isinstance(e, ast.IfExp):
+            return self.ev(e.body if self.truth(self.ev(e.test, env, f)) else e.orelse, env, f)
+        if isinstance(e, ast.Compare):
+            l = self.ev(e.left, env, f)
+            for op, rn in zip(e.ops, e.comparators):
+                r = self.ev(rn, env, f)
+                if isinstance(op, (ast.Eq, ast.NotEq)):
+                    x = self.equal(l, r)
+                    if isinstance(op, ast.NotEq):
+                        x = not self.truth(x)
+                elif isinstance(op, (ast.Is, ast.IsNot)):
+                    if (isinstance(l, KOpaque) or isinstance(r, KOpaque)) and l is not r and not (l is None or r is None or isinstance(l, KInst) or isinstance(r, KInst)):
+                        raise KUnsupported("identity of an opaque value in `%s`" % txt(e))
+                    if isinstance(l, _K_NATIVE[:3] + (tuple,)) and l is not None and isinstance(r, _K_NATIVE[:3] + (tuple,)) and r is not None and not isinstance(l, bool):
+                        raise KUnsupported("identity of data values in `%s`" % txt(e))
+                    if (isinstance(l, KOpaque) and r is None) or (isinstance(r, KOpaque) and l is None):
+                        x = self._choose("`%s`" % txt(e)) == isinstance(op, ast.Is)
+                    else:
+                        x = (l is r) == isinstance(op, ast.Is)
+                elif isinstance(op, (ast.In, ast.NotIn)):
+                    if not isinstance(r, (tuple, list, frozenset)):
+                        raise KUnsupported("membership in %r" % (r,))
+                    x = any(self.truth(self.equal(l, y)) for y in r) == isinstance(op, ast.In)
+                else:
+                    if not (isinstance(l, _K_NATIVE) and isinstance(r, _K_NATIVE)):
+                        raise KUnsupported("ordering in `%s`" % txt(e))
+                    x = {ast.Lt: lambda a, b: a < b, ast.LtE: lambda a, b: a <= b, ast.Gt: lambda a, b: a > b, ast.GtE: lambda a, b: a >= b}[type(op)](l, r)
+                if not self.truth(x):
+                    return x
+                l = r
+            return x
+        if isinstance(e, ast.BinOp):
+            l, r = self.ev(e.left, env, f), self.ev(e.right, env, f)
+            if isinstance(l, _K_NATIVE) and isinstance(r, _K_NATIVE) and l is not None and r is not None:
+                ops = {ast.Add: lambda a, b: a + b, ast.Sub: lambda a, b: a - b, ast.Mult: lambda a, b: a * b, ast.BitXor: lambda a, b: a ^ b, ast.BitAnd: lambda a, b: a & b, ast.BitOr: lambda a, b: a | b, ast.Mod: lambda a, b: a % b, ast.LShift: lambda a, b: a << b, ast.RShift: lambda a, b: a >> b, ast.FloorDiv: lambda a, b: a // b}
+                if type(e.op) in ops and not (isinstance(e.op, ast.Mod) and isinstance(l, (str, bytes))):
+                    return ops[type(e.op)](l, r)
+            if isinstance(l, KOpaque) or isinstance(r, KOpaque):
+                return self.opaque_call("binop " + type(e.op).__name__, [l, r])
+            raise KUnsupported("`%s`" % txt(e))
+        if isinstance(e, ast.Lambda):
+            return _KFunc(e, f.module, f.ci, closure=dict(env))
+        if isinstance(e, ast.JoinedStr):
+            return KOpaque("a formatted string")
+        if isinstance(e, ast.Call):
+            return self.ev_call(e, env, f)
+        raise KUnsupported("expression `%s`" % txt(e))
+
+    def elts(self, elts, env, f):
+        out = []
+        for x in elts:
+            if isinstance(x, ast.Starred):
+                v = self.ev(x.value, env, f)
+                if not isinstance(v, (tuple, list)):
+                    raise KUnsupported("`*%s`" % txt(x.value))
+                out.extend(v)
+            else:
+                out.append(self.ev(x, env, f))
+        return out
+
+    def global_name(self, name, f):
+        m = f.module
+        if name in ("hash", "isinstance", "type", "getattr", "hasattr", "super", "id") or name in _K_BUILTINS or name in _K_TYPES:
+            if name not in m.imports and not self.prog._module_defines(m, name) and (m.name + "." + name) not in self.prog.funcs:
+                return ("builtin", name)
+        if name == "NotImplemented":
+            return NotImplemented
+        q = self.prog.resolve_in_module(m, name)
+        if q in self.prog.classes:
+            return self.classref(self.prog.classes[q])
+        if q in self.prog.funcs:
+            return ("function", q)
+        return ("external", q)
+
+    def getattr(self, o, name, f):
+        if isinstance(o, KInst):
+            if name in o.fields:
+                k = self.lookup(o.ci, name)
+                if k is None or k[0] == "attr" and not (isinstance(k[1], ast.Call) and chain(k[1].func) == "property"):
+                    return o.fields[name]
+            k = self.lookup(o.ci, name)
+            if k is None:
+                if name == "__class__":
+                    return self.classref(o.ci)
+                raise AttributeError(name)
+            kind, thing, ci = k
+            if kind == "attr":
+                if isinstance(thing, ast.Call) and chain(thing.func) == "property" and len(thing.args) == 1 and not thing.keywords:
+                    mf = _KFunc(ast.Lambda(args=ast.arguments(posonlyargs=[], args=[], kwonlyargs=[], kw_defaults=[], defaults=[]), body=thing.args[0]), ci.module, ci)
+                    getter = self.call(mf, [], {})
+                    return self.call(getter, [o], {}) if isinstance(getter, _KFunc) else self._refuse("property getter of %s.%s" % (ci.qn, name))
+                if isinstance(thing, (ast.Call, ast.Lambda)):
+                    raise KUnsupported("class attribute %s.%s" % (ci.qn, name))
+                mf = _KFunc(ast.Lambda(args=ast.arguments(posonlyargs=[], args=[], kwonlyargs=[], kw_defaults=[], defaults=[]), body=thing), ci.module, ci)
+                return self.call(mf, [], {})
+            decos = [chain(d) or "?" for d in thing.node.decorator_list]
+            if decos in (["property"], ["functools.cached_property"], ["cached_property"]):
+                return self.call(_KFunc(thing.node, thing.module, ci, bound=o), [], {})
+            return self.bind(thing, ci, o)
+        if isinstance(o, KOpaque):
+            return self.opaque_call("attribute " + name, [o])
+        if isinstance(o, tuple) and o and o[0] in ("external", "function"):
+            return ("external", "%s.%s" % (o[1], name))
+        if isinstance(o, _KClass):
+            k = self.lookup(o.ci, name)
+            if name == "__name__":
+                return o.ci.qn.rsplit(".", 1)[-1]
+            if k is not None and k[0] == "method" and [chain(d) for d in k[1].node.decorator_list] == ["staticmethod"]:
+                return _KFunc(k[1].node, k[1].module, k[2])
+            raise KUnsupported("class attribute %s.%s" % (o.ci.qn, name))
+        if o is None:
+            raise AttributeError(name)
+        if isinstance(o, _K_NATIVE):
+            return ("native", o, name)
+        raise KUnsupported("attribute %s of %r" % (name, o))
+
+    def _refuse(self, what):
+        raise KUnsupported(what)
+
+    def classref(self, ci):
+        if ci.qn not in self.classrefs:
+            self.classrefs[ci.qn] = _KClass(ci)
+        return self.classrefs[ci.qn]
+
+    def ev_call(self, e, env, f):
+        if isinstance(e.func, ast.Attribute) and isinstance(e.func.value, ast.Call) and chain(e.func.value.func) == "super" and "super" not in env:
+            # super().m(...): the next definition after the class the running method belongs to
+            me = env.get(f.node.args.args[0].arg) if isinstance(f.node, ast.FunctionDef) and f.node.args.args else None
+            if not isinstance(me, KInst) or f.ci is None:
+                raise KUnsupported("`%s`" % txt(e))
+            mro = self.prog.mro(me.ci.qn)
+            rest = mro[mro.index(f.ci.qn) + 1:] if f.ci.qn in mro else []
+            args, kwargs = self.args_of(e, env, f)
+            for q in rest:
+                c = self.prog.classes.get(q)
+                if c is None:
+                    if q.split(".")[-1] in ("object", "ABC", "Protocol"):
+                        continue
+                    raise KUnsupported("super() reaches %s, which is outside the package" % q)
+                if e.func.attr in c.methods:
+                    return self.call(self.bind(c.methods[e.func.attr], c, me), args, kwargs)
+            if e.func.attr in ("__init__", "__init_subclass__"):
+                return None
+            raise KUnsupported("`%s`" % txt(e))
+        fn = self.ev(e.func, env, f)
+        args, kwargs = self.args_of(e, env, f)
+        if isinstance(fn, _KFunc):
+            return self.call(fn, args, kwargs)
+        if isinstance(fn, KOpaque):
+            return self.opaque_call("call", [fn] + args + sorted(kwargs.items()))
+        if isinstance(fn, _KClass):
+            raise KUnsupported("construction of %s inside the evaluated methods" % fn.ci.qn)
+        if isinstance(fn, tuple) and fn and fn[0] == "builtin":
+            return self.builtin(fn[1], args, kwargs, e)
+        if isinstance(fn, tuple) and fn and fn[0] in ("external", "function"):
+            # a function of the package or of a library: not entered; modelled as a pure function of its arguments
+            return self.opaque_call(fn[1], args + sorted(kwargs.items()))
+        if isinstance(fn, tuple) and fn and fn[0] == "native":
+            if kwargs or any(not isinstance(a, _K_NATIVE) for a in args) or fn[2].startswith("_"):
+                raise KUnsupported("`%s`" % txt(e))
+            return getattr(fn[1], fn[2])(*args)
+        raise KUnsupported("call `%s`" % txt(e))
+
+    def args_of(self, e, env, f):
+        args = self.elts(e.args, env, f)
+        kwargs = {}
+        for k in e.keywords:
+            if k.arg is None:
+                raise KUnsupported("`**` in `%s`" % txt(e))
+            kwargs[k.arg] = self.ev(k.value, env, f)
+        return args, kwargs
+
+    def builtin(self, name, args, kwargs, e):
+        if kwargs:
+            raise KUnsupported("`%s`" % txt(e))
+        if name == "hash" and len(args) == 1:
+            return self.hash_of(args[0])
+        if name == "id" and len(args) == 1:
+            return id(args[0])
+        if name == "isinstance" and len(args) == 2:
+            v, cs = args
+            res = False
+            for c in cs if isinstance(cs, tuple) else (cs,):
+                if isinstance(c, _KClass):
+                    if isinstance(v, KInst):
+                        res = res or c.ci.qn in self.prog.mro(v.ci.qn)
+                    elif isinstance(v, KOpaque):
+                        res = res or self._choose("isinstance(%r, %s)" % (v, c.ci.qn))
+                elif isinstance(c, tuple) and c and c[0] == "builtin" and c[1] in _K_TYPES:
+                    if isinstance(v, KOpaque):
+                        res = res or self._choose("isinstance(%r, %s)" % (v, c[1]))
+                    elif not isinstance(v, KInst):
+                        res = res or isinstance(v, _K_TYPES[c[1]])
+                else:
+                    raise KUnsupported("`%s`" % txt(e))
+            return res
+        if name == "type" and len(args) == 1 and isinstance(args[0], KInst):
+            return self.classref(args[0].ci)
+        if name in ("getattr", "hasattr") and len(args) in (2, 3) and isinstance(args[1], str):
+            try:
+                v = self.getattr(args[0], args[1], None)
+            except AttributeError:
+                if name == "hasattr":
+                    return False
+                if len(args) == 3:
+                    return args[2]
+                raise
+            return True if name == "hasattr" else v
+        if name in _K_BUILTINS:
+            if any(isinstance(a, (KInst, _KFunc, _KClass)) for a in args):
+                raise KUnsupported("`%s`" % txt(e))
+            if name not in ("str", "repr", "bool") and any(isinstance(a, KOpaque) and a.plain for a in args):
+                raise TypeError("%s() of a plain object" % name)
+            if any(isinstance(a, KOpaque) for a in args):
+                return self.opaque_call(name, args)
+            if name in ("str", "repr") and any(not isinstance(a, (str, bytes, int, bool, type(None))) for a in args):
+                raise KUnsupported("`%s`" % txt(e))
+            return _K_BUILTINS[name](*args)
+        raise KUnsupported("`%s`" % txt(e))
+
+    # -- the experiment -------------------------------------------------------------------------------------------
+    def instances(self, ci, pool, limit=100):
+        """instances of ci built by its own constructor from every combination (or, when those are too many, every
+        one-at-a-time variation) of pool values for the parameters without default"""
+        k = self.lookup(ci, "__init__")
+        if self.lookup(ci, "__new__") is not None:
+            raise KUnsupported("%s defines __new__" % ci.qn)
+        if k is None:
+            raise KUnsupported("%s has no constructor inside the package" % ci.qn)
+        if k[0] != "method":
+            raise KUnsupported("__init__ of %s is not a plain method" % ci.qn)
+        fi, dci = k[1], k[2]
+        a = fi.node.args
+        if a.vararg is not None or a.kwarg is not None:
+            raise KUnsupported("constructor of %s takes * / ** parameters" % ci.qn)
+        pos = [p.arg for p in a.posonlyargs + a.args][1:]
+        req = pos[: len(pos) - len(a.defaults)] if a.defaults else pos
+        kwreq = [p.arg for p, d in zip(a.kwonlyargs, a.kw_defaults) if d is None]
+        names = req + kwreq
+        import itertools
+        if len(pool) ** len(names) <= limit:
+            combos = list(itertools.product(pool, repeat=len(names)))
+        else:
+            combos = []
+            for base in pool[:2]:
+                for i in range(len(names)):
+                    for v in pool:
+                        c = tuple(v if j == i else base for j in range(len(names)))
+                        if c not in combos:
+                            combos.append(c)
+        # parameters with a default: the default everywhere, and every pool value on a few of the combinations
+        opt = pos[len(req):] + [p.arg for p, d in zip(a.kwonlyargs, a.kw_defaults) if d is not None]
+        few = list(itertools.product(pool[:2], repeat=len(names))) if 2 ** len(names) <= 8 else combos[:4]
+        plans = [(c, {}) for c in combos] + [(c, {o: v}) for o in opt for c in few for v in pool]
+        out = []
+        for combo, extra in plans:
+            def build(combo=combo, extra=extra):
+                shown = list(zip(names, combo)) + sorted(extra.items())
+                inst = KInst(ci, "%s(%s)" % (ci.qn.rsplit(".", 1)[-1], ", ".join("%s=%r" % nv for nv in shown)))
+                kw = dict(zip(kwreq, combo[len(req):]))
+                kw.update(extra)
+                self.call(self.bind(fi, dci, inst), list(combo[: len(req)]), kw)
+                return inst
+            out.extend(self.explore(build))
+        return out
